@@ -10,6 +10,7 @@ not proved (Lean cannot reason about `Float32`): this property is partial for th
 import GgrsModel.Model.Inventory
 import GgrsModel.Model.P2P
 import GgrsModel.Proofs.Monad
+import GgrsModel.Proofs.Endpoint
 
 namespace Ggrs.TimeSync
 
@@ -84,3 +85,91 @@ theorem C15_recommendation (s s' : P2P) (h : s.checkWaitRecommendation = .ok s')
     simp [hh.1, hh.2]
 
 end Ggrs.P2P
+
+namespace Ggrs.Endpoint
+
+/-- **C15, what the ping is.** A quality report carries the sender's clock reading in milliseconds;
+the receiver echoes it unchanged in its reply (whatever state it is in, once the packet passed the
+magic filter), and the report's sender, handling the reply at time `now`, records
+`now / 1000 − (that reading)` as its round-trip time and remembers that it has a measurement. So the
+ping `network_stats` reports is the time between the poll that sent the report and the poll that
+handled the reply: the link's round trip plus what the two sides wait for their next poll. -/
+theorem C15_ping_is_round_trip (e : Endpoint) (now : Nat) (magic pong : Nat)
+    (hs : e.state ≠ .shutdown) (hm : e.remoteMagic = 0 ∨ magic = e.remoteMagic) :
+    ∃ e', e.handleMessage now ⟨magic, .qualityReply pong⟩ = .ok e' ∧
+      e'.roundTripTime = now / 1000 - pong ∧ e'.roundTripTimeMeasured = true := by
+  unfold handleMessage
+  have h1 : (e.state == .shutdown) = false := by
+    cases hst : e.state <;> simp_all
+  have h2 : (e.remoteMagic != 0 && magic != e.remoteMagic) = false := by
+    rcases hm with h | h
+    · simp [h]
+    · simp [h]
+  simp only [h1, h2, Bool.false_eq_true, if_false]
+  exact ⟨_, rfl, rfl, rfl⟩
+
+/-- The echo: a quality report is answered with a reply carrying the same clock reading. -/
+theorem C15_report_is_echoed (e : Endpoint) (now : Nat) (magic : Nat) (adv : Int) (ping : Nat)
+    (hs : e.state ≠ .shutdown) (hm : e.remoteMagic = 0 ∨ magic = e.remoteMagic) :
+    ∃ e', e.handleMessage now ⟨magic, .qualityReport adv ping⟩ = .ok e' ∧
+      e'.remoteFrameAdvantage = adv ∧
+      e'.sendQueue = e.sendQueue ++ [⟨e.magic, .qualityReply ping⟩] := by
+  unfold handleMessage
+  have h1 : (e.state == .shutdown) = false := by
+    cases hst : e.state <;> simp_all
+  have h2 : (e.remoteMagic != 0 && magic != e.remoteMagic) = false := by
+    rcases hm with h | h
+    · simp [h]
+    · simp [h]
+  simp only [h1, h2, Bool.false_eq_true, if_false]
+  have hn : (e.noteReceived now).sendQueue = e.sendQueue ∧ (e.noteReceived now).magic = e.magic := by
+    unfold noteReceived
+    simp only
+    split <;> exact ⟨rfl, rfl⟩
+  refine ⟨_, rfl, ?_, ?_⟩
+  · unfold queueMessage; rfl
+  · unfold queueMessage
+    show (e.noteReceived now).sendQueue ++ [⟨(e.noteReceived now).magic, _⟩] = _
+    rw [hn.1, hn.2]
+
+/-- **C15, the gate of `network_stats`.** Numbers are only reported by an endpoint that is
+synchronizing or running, at least one second after it was started, and — since the `fix:` commit —
+only once a round-trip time has actually been measured; the ping reported is that measurement. -/
+theorem C15_stats_gate (e : Endpoint) (now : Nat) (p q : Nat) (l r : Int)
+    (h : e.networkStats now = .ok p q l r) :
+    (e.state = .synchronizing ∨ e.state = .running) ∧ e.roundTripTimeMeasured = true ∧
+    (now / 1000 - e.statsStartTime) / 1000 ≠ 0 ∧
+    p = e.roundTripTime ∧ l = e.localFrameAdvantage ∧ r = e.remoteFrameAdvantage := by
+  unfold networkStats at h
+  split at h
+  · cases h
+  · rename_i hst
+    simp only at h
+    split at h
+    · cases h
+    · rename_i hg
+      simp only [StatsResult.ok.injEq] at h
+      obtain ⟨h1, _, h3, h4⟩ := h
+      have hst' : e.state = .synchronizing ∨ e.state = .running := by
+        cases hs : e.state <;> simp_all
+      have hg' : ¬ ((now / 1000 - e.statsStartTime) / 1000 == 0 || !e.roundTripTimeMeasured) = true := hg
+      have hm : e.roundTripTimeMeasured = true := by
+        cases hmm : e.roundTripTimeMeasured
+        · simp [hmm] at hg'
+        · rfl
+      have hsec : (now / 1000 - e.statsStartTime) / 1000 ≠ 0 := by
+        intro h0
+        simp [h0] at hg'
+      exact ⟨hst', hm, hsec, h1.symm, h3.symm, h4.symm⟩
+
+/-- No measurement, no numbers. -/
+theorem C15_no_numbers_before_measurement (e : Endpoint) (now : Nat) (h : e.roundTripTimeMeasured = false) :
+    e.networkStats now = .notSynchronized ∨ e.networkStats now = .notEnoughData := by
+  unfold networkStats
+  split
+  · exact Or.inl rfl
+  · right
+    simp [h]
+
+end Ggrs.Endpoint
+
